@@ -4,7 +4,7 @@ import tower_common
 
 TARGETS = ["theories/Properties/C07.v", "theories/Properties/C07_ledger.v"] + slots_check.SLOTS_TARGETS
 MON = {"C07"}
-KNOWN = {}
+KNOWN = {"C107": {"kind": "balance-above-u32-max"}}
 
 
 def run(ctx):
